@@ -67,6 +67,7 @@ func main() {
 	verbose := fs.Bool("v", false, "verbose")
 	oblFilter := fs.String("o", "", "obligation filter (dump)")
 	claimAll := fs.Bool("all", false, "development aid: treat every generated obligation as claimed")
+	keep := fs.Bool("keep", false, "baseline: keep existing claims that still discharge, whatever time they took")
 	fs.Parse(os.Args[2:])
 	if *tier == "" {
 		*tier = os.Getenv("VERIF_TIER")
@@ -77,6 +78,7 @@ func main() {
 	switch cmd {
 	case "check", "baseline", "dump":
 		claimEverything = *claimAll
+		keepClaims = *keep
 		noRetry = *claimAll || cmd != "check"
 		devRun = *claimAll || *fnFilter != "" || *oblFilter != "" || cmd != "check"
 		os.Exit(runCheck(cmd, *prop, *tier, *fnFilter, *oblFilter, *verbose))
@@ -101,6 +103,7 @@ func main() {
 }
 
 var claimEverything bool
+var keepClaims bool
 
 type runResult struct {
 	funcs   []*funcResult
@@ -314,6 +317,13 @@ func (lg *ledger) isClaimed(o *obligation) bool {
 
 func writeBaseline(prop string, rr *runResult, verbose bool) int {
 	lg := ledger{Property: prop, Obligations: map[string]ledgerEntry{}, Complete: map[string]bool{}, Groups: map[string]bool{}}
+	// -keep: an obligation claimed by the existing ledger stays claimed when it still
+	// discharges, however long it took this time (for re-taking a ledger while the
+	// machine is busy); without it only obligations discharged within claimMs are claimed
+	var old ledger
+	if keepClaims {
+		loadJSON(filepath.Join(verifDir, "baseline", prop+".json"), &old)
+	}
 	perFn := map[string][2]int{}
 	perGroup := map[string][2]int{}
 	for _, o := range rr.obls {
@@ -328,7 +338,8 @@ func writeBaseline(prop string, rr *runResult, verbose bool) int {
 		gk := groupKey(o)
 		gc := perGroup[gk]
 		gc[0]++
-		if o.status == "unsat" && o.ms <= claimMs {
+		_, was := old.Obligations[o.name]
+		if o.status == "unsat" && (o.ms <= claimMs || (keepClaims && was)) {
 			lg.Obligations[o.name] = ledgerEntry{o.solver, o.ms}
 			c[1]++
 			gc[1]++
